@@ -2,6 +2,7 @@ package main
 
 import (
 	"verif/harness/mon/c03"
+	"verif/harness/mon/c06"
 	"verif/harness/mon/c09"
 	"verif/harness/mon/c10"
 	"verif/harness/mon/c11"
@@ -14,6 +15,7 @@ import (
 
 func init() {
 	register("C03", c03.Run)
+	register("C06", c06.Run)
 	register("C09", c09.Run)
 	register("C10", c10.Run)
 	register("C11", c11.Run)
